@@ -127,6 +127,7 @@ func (x *Exec) instr(fr *Frame, st *State, ins ssa.Instruction) error {
 			a := Addr{Kind: ACell, T: et, Ref: ref}
 			u.StoreAddr(st, True, a, u.ZeroVal(et))
 			fr.regs[t] = Val{T: t.Type(), S: []Term{ref}}
+			fr.cells = append(fr.cells, frameCell{ref, et, t})
 			if t.Comment != "" {
 				// remember source name for contracts: a captured variable
 				key := fmt.Sprintf("f%d.cell.%s", fr.id, t.Comment)
@@ -422,7 +423,32 @@ func (x *Exec) instr(fr *Frame, st *State, ins ssa.Instruction) error {
 		u.Trust("go statement: the spawned goroutine is not executed at the spawn site; its body is a separate unit")
 		return nil
 	case *ssa.Send:
-		u.Trust("channel send: no effect on the sequential state")
+		// ghost log of a channel: number of sends and the last value sent (interface- or pointer-typed elements)
+		cv, err := x.val(fr, st, t.Chan)
+		if err != nil {
+			return err
+		}
+		xv, err := x.val(fr, st, t.X)
+		if err != nil {
+			return err
+		}
+		u.Trust("channel send: appends to the channel's ghost log (chansent / chanlast); no other effect on the sequential state")
+		if g, ok, err := x.recvInvariant(fr, st, t.Chan, xv); err != nil {
+			return err
+		} else if ok {
+			x.u.AddObligation(x.topName, "send-inv", t.Pos(), x.labels, "value sent satisfies the channel invariant", st.PC, g)
+		}
+		if cv.P == nil && len(cv.S) == 1 {
+			ch := cv.S[0]
+			sent := u.comp(st, "GF$chan$sent", ArrSort(SInt, SInt))
+			u.setComp(st, "GF$chan$sent", Store(sent, ch, Add(Select(sent, ch), IntLit(1))))
+			if xv.P == nil && xv.F == nil && len(xv.S) == 2 && classify(xv.T) == KIface {
+				lt := u.comp(st, "GF$chan$last%tag", ArrSort(SInt, SInt))
+				lv := u.comp(st, "GF$chan$last%val", ArrSort(SInt, SInt))
+				u.setComp(st, "GF$chan$last%tag", Store(lt, ch, xv.S[0]))
+				u.setComp(st, "GF$chan$last%val", Store(lv, ch, xv.S[1]))
+			}
+		}
 		return nil
 	case *ssa.Select:
 		return x.selectInstr(fr, st, t)
@@ -707,7 +733,9 @@ func (x *Exec) convert(st *State, v Val, from, to types.Type) (Val, error) {
 		sl := x.newSlice(st, et, ln, ln, false)
 		// element array equals the string's bytes: E[ptr] = bytesOf(s)
 		bs := x.u.sortOfInt(intInfo{8, false})
-		u.DeclareFun("sbytes", []Sort{SStr}, ArrSort(u.IntSort(), bs))
+		if u.Mode == ModeBV {
+			u.DeclareFun("sbytes", []Sort{SStr}, ArrSort(u.IntSort(), bs))
+		}
 		if u.Mode == ModeInt {
 			u.emitOnce("(assert (forall ((s Str) (i Int)) (! (= (select (sbytes s) i) (sbyte s i)) :pattern ((select (sbytes s) i)))))")
 		} else {
@@ -721,7 +749,9 @@ func (x *Exec) convert(st *State, v Val, from, to types.Type) (Val, error) {
 		// string(b): a string determined by the bytes b[0:len]
 		bs := x.u.sortOfInt(intInfo{8, false})
 		et := from.Underlying().(*types.Slice).Elem()
-		u.DeclareFun("mkstr", []Sort{ArrSort(u.IntSort(), bs), u.IntSort(), u.IntSort()}, SStr)
+		if u.Mode == ModeBV {
+			u.DeclareFun("mkstr", []Sort{ArrSort(u.IntSort(), bs), u.IntSort(), u.IntSort()}, SStr)
+		}
 		if u.Mode == ModeInt {
 			u.emitOnce("(assert (forall ((a (Array Int Int)) (o Int) (n Int)) (! (=> (>= n 0) (= (slen (mkstr a o n)) n)) :pattern ((mkstr a o n)))))")
 			u.emitOnce("(assert (forall ((a (Array Int Int)) (o Int) (n Int) (i Int)) (! (=> (and (<= 0 i) (< i n)) (= (sbyte (mkstr a o n) i) (select a (+ o i)))) :pattern ((sbyte (mkstr a o n) i)))))")
